@@ -734,7 +734,7 @@ func genC16Case(t *rapid.T) C16Case {
 				}
 				var keys []string
 				for _, k := range r.Order {
-					if _, ok := base.Fields[k]; ok && k != "comm" && k != "pid" && k != "operation" && k != "class" && k != "profile" && k != "denied_mask" {
+					if _, ok := base.Fields[k]; ok && k != "comm" && k != "pid" && k != "operation" && k != "class" && k != "profile" && k != "label" && k != "denied_mask" {
 						keys = append(keys, k)
 					}
 				}
